@@ -92,7 +92,7 @@ fn check_interval(v: &BigInt, m_neg: bool, mabs: &[u64; W]) {
 macro_rules! modinv_shape {
     ($name:ident, $nb:expr, $lb:expr, $nm:expr, $lm:expr, $stub:ident) => {
         #[kani::proof]
-        #[kani::unwind(8)]
+        #[kani::unwind(34)]
         #[kani::stub(crate::biguint::BigUint::modinv, $stub)]
         #[kani::stub(alloc::vec::Vec::shrink_to_fit, vc::noop_shrink)]
         #[kani::stub(core::arch::x86_64::_subborrow_u64, vc::stub_subborrow)]
@@ -124,7 +124,7 @@ macro_rules! modinv_shape {
 macro_rules! modpow_shape {
     ($name:ident, $nb:expr, $lb:expr, $le:expr, $nm:expr, $lm:expr, $stub:ident) => {
         #[kani::proof]
-        #[kani::unwind(8)]
+        #[kani::unwind(34)]
         #[kani::stub(crate::biguint::BigUint::modpow, $stub)]
         #[kani::stub(alloc::vec::Vec::shrink_to_fit, vc::noop_shrink)]
         #[kani::stub(core::arch::x86_64::_subborrow_u64, vc::stub_subborrow)]
@@ -155,7 +155,7 @@ macro_rules! modpow_shape {
 macro_rules! modpow_zero_modulus_mp {
     ($name:ident, $nb:expr, $lb:expr, $le:expr) => {
         #[kani::proof]
-        #[kani::unwind(8)]
+        #[kani::unwind(34)]
         #[kani::stub(crate::biguint::BigUint::modpow, modpow_c1)]
         fn $name() {
             let b0: [u64; $lb] = vc::any_canon::<$lb>();
@@ -168,7 +168,7 @@ macro_rules! modpow_zero_modulus_mp {
 macro_rules! modpow_neg_exp_mp {
     ($name:ident, $nb:expr, $lb:expr, $nm:expr) => {
         #[kani::proof]
-        #[kani::unwind(8)]
+        #[kani::unwind(34)]
         #[kani::stub(crate::biguint::BigUint::modpow, modpow_c1)]
         fn $name() {
             let b0: [u64; $lb] = vc::any_canon::<$lb>();
@@ -180,7 +180,7 @@ macro_rules! modpow_neg_exp_mp {
     };
 }
 #[kani::proof]
-#[kani::unwind(8)]
+#[kani::unwind(34)]
 fn c05_q_modinv_zero_modulus_mp() {
     let b0: [u64; 1] = vc::any_canon::<1>();
     let neg: bool = kani::any();
